@@ -122,6 +122,15 @@ CHECKS["C08"] = ("exploration",
     "unseen buckets; the same fit is repeated with other n_jobs values and under perturbed schedules and must agree.",
     "DESIGN.md §3 C08")
 
+CHECKS["C09"] = ("exploration",
+    "runtime monitors on the compiled criteria through their exported accessors (all (start,pos,end) triples of small "
+    "ranges, dirty-buffer histories) with NumPy/lstsq oracles; per-leaf lstsq / weighted-mean oracle for the "
+    "estimator; the same workloads under an ASan+UBSan build of the extensions",
+    "Exhaustive triples for n<=12 (thorough n<=24) and sampled ranges up to n=200 for three criteria x 5 target "
+    "classes x 3 weight classes x 2 sample orders; ~100 (thorough ~1000) fitted trees incl. ill-conditioned and "
+    "rank-deficient leaves; sanitizer reports with an mlinsights frame count as violations.",
+    "DESIGN.md §3 C09")
+
 PENDING = {}
 
 
